@@ -365,10 +365,14 @@ func PrepareFact(ctx *Context, givenId string, x Map) (id string, m map[string]i
 				Log(UERR, ctx, "PrepareFact", "givenId", givenId, "error", err)
 				return
 			}
-		} else if _, given := m[KW_DeleteWith]; !given {
+		}
+		if target != "" {
 			// A property goes with what it is a property of,
-			// also when it was not written with 'SetProp'.
-			m[KW_DeleteWith] = []interface{}{target}
+			// also when it was not written with 'SetProp', and
+			// also when it goes with something else, too.
+			// (Whether we are loading makes no difference here:
+			// a fact is the same before and after a reload.)
+			m[KW_DeleteWith] = withTarget(m[KW_DeleteWith], target)
 		}
 	}
 
@@ -377,6 +381,35 @@ func PrepareFact(ctx *Context, givenId string, x Map) (id string, m map[string]i
 	Log(DEBUG, ctx, "PrepareFact", "givenId", givenId, "id", id, "x", m)
 
 	return
+}
+
+// withTarget returns the given 'deleteWith' value with the target in
+// it.  The given value is not modified.  A value that is no list is
+// left alone ('deleteWith' wants a list).
+func withTarget(given interface{}, target string) interface{} {
+	switch vv := given.(type) {
+	case nil:
+		return []interface{}{target}
+	case []interface{}:
+		for _, x := range vv {
+			if s, ok := x.(string); ok && s == target {
+				return given
+			}
+		}
+		acc := make([]interface{}, 0, len(vv)+1)
+		acc = append(acc, vv...)
+		return append(acc, target)
+	case []string:
+		acc := make([]interface{}, 0, len(vv)+1)
+		for _, s := range vv {
+			if s == target {
+				return given
+			}
+			acc = append(acc, s)
+		}
+		return append(acc, target)
+	}
+	return given
 }
 
 // checkReservedProp refuses a value for one of the location-level
